@@ -26,6 +26,7 @@ type Block struct {
 	Loop    int    // loop ordinal (-1 if none)
 	Closure int    // closure ordinal (-1 if none)
 	Context bool
+	Handler bool
 	Header  string
 	Props   []string
 	Clauses []Clause
@@ -46,6 +47,9 @@ func (b *Block) ID() string {
 	}
 	if b.Context {
 		s += "/context"
+	}
+	if b.Handler {
+		s += "/handler"
 	}
 	return s
 }
@@ -129,6 +133,9 @@ func parseContracts(path string) (*Contracts, error) {
 						rest = rest[2:]
 					case "context":
 						cur.Context = true
+						rest = rest[1:]
+					case "handler":
+						cur.Handler = true
 						rest = rest[1:]
 					default:
 						return nil, fmt.Errorf("%s:%d: bad header %q", path, ln, txt)
